@@ -269,6 +269,10 @@ Definition param_class (t : pty) : option str :=
 (* ---------- adapt_typehints (Subclass branch) + adapt_class_type ------------------------- *)
 Section Adapt.
   Variable F : family.
+  (* how adapt_class_type renders the (already loaded) value of a NestedArg for the next level:
+     `restr` = the code as it is (f"--{key}={val}", str(None) = "None"); the identity = the value
+     survives (behaviour with fixes/C14-nested-null-restringified.patch) *)
+  Variable rs : raw -> raw.
 
   (* one parameter value; `rec` is the subclass branch one level down *)
   Definition adapt_param (rec : mode -> str -> option value -> input -> res value)
@@ -309,56 +313,75 @@ Section Adapt.
         end
     end.
 
+  (* implicit class_path of a concrete declared type *)
+  Definition prev1_of (base : str) (prev : option value) : option value :=
+    match prev with
+    | Some (VSpec _ _ _) => prev
+    | _ => if cls_abstract F base then None else Some (VSpec (path_of F base) [] [])
+    end.
+
+  (* adapt_class_type, first half: (same class as before?, previous init_args that survive, previous dict_kwargs) *)
+  Definition prev_parts (rec : mode -> str -> option value -> input -> res value)
+             (ps : list param) (cpn : str) (prev1 : option value)
+    : bool * list (str * value) * list (str * value) :=
+    match prev1 with
+    | Some (VSpec pcp pia pdk) =>
+        if str_eqb pcp cpn then (true, pia, pdk)
+        else (false, filter (keep_arg rec ps) pia, pdk)
+    | _ => (false, [], [])
+    end.
+
+  (* init_args is a NestedArg: parser.parse_args(["--k.rest=r"], namespace=prev_init_args) *)
+  Definition adapt_nested (rec : mode -> str -> option value -> input -> res value)
+             (m : mode) (ps : list param) (cpn : str) (pia : list (str * value))
+             (path : list str) (r : raw) : res value :=
+    match path with
+    | k :: rest =>
+        match find_param ps k with
+        | Some p =>
+            match param_class (p_ty p) with
+            | Some c =>
+                v <- rec m c (aget k pia) (INested (strip_ia rest) (rs r)) ;;
+                Ok (VSpec cpn (aset k (merge_val (aget k pia) v) pia) [])
+            | None => Err Reject
+            end
+        | None => Err Reject
+        end
+    | [] => Err Reject
+    end.
+
+  (* init_args is a dict: parser.parse_object(init_args, cfg_base=prev_init_args), then dict_kwargs *)
+  Definition adapt_dict (rec : mode -> str -> option value -> input -> res value)
+             (m : mode) (ps : list param) (cpn : str) (same : bool)
+             (pia pdk : list (str * value)) (kvs dk : list (str * raw)) : res value :=
+    (* dict_kwargs entries that name a parameter are moved into init_args *)
+    let moved := filter (fun kv => match find_param ps (fst kv) with Some _ => true | None => false end) dk in
+    let dk' := filter (fun kv => match find_param ps (fst kv) with Some _ => false | None => true end) dk in
+    let kvs' := aupdate kvs moved in
+    let base_ia := if m_defaults m then aupdate (defaults_of ps) pia else pia in
+    ia <- parse_ia rec m ps base_ia kvs' base_ia ;;
+    if m_strict m && negb (required_ok ps ia) then Err Reject
+    else
+      dkv <- simple_values dk' ;;
+      let dkf := match dkv with
+                 | [] => []
+                 | _ => if same then aupdate pdk dkv else dkv
+                 end in
+      Ok (VSpec cpn ia dkf).
+
   Fixpoint adapt (n : nat) (m : mode) (base : str) (prev : option value) (i : input) : res value :=
     match n with
     | 0 => Err OutOfFuel
     | S n' =>
-        (* implicit class_path of a concrete declared type *)
-        let prev1 := match prev with
-                     | Some (VSpec _ _ _) => prev
-                     | _ => if cls_abstract F base then None else Some (VSpec (path_of F base) [] [])
-                     end in
+        let prev1 := prev1_of base prev in
         q <- as_ns i (prev_class_path prev1) ;;
         cp1 <- resolve_name F base (q_cp q) ;;
-        cps <- check_import F base cp1 ;;
-        let '(cpn, ps) := cps in
-        (* adapt_class_type *)
-        let '(same, pia, pdk) :=
-          match prev1 with
-          | Some (VSpec pcp pia pdk) =>
-              if str_eqb pcp cpn then (true, pia, pdk)
-              else (false, filter (keep_arg (adapt n') ps) pia, pdk)
-          | _ => (false, [], [])
-          end in
+        cps <- check_import F base cp1 ;;          (* (normalised class_path, parameters) *)
+        let parts := prev_parts (adapt n') (snd cps) (fst cps) prev1 in
         match q_ia q with
-        | IaNested (k :: rest) r =>
-            (* parser.parse_args(["--k.rest=r"], namespace=prev_init_args) *)
-            match find_param ps k with
-            | Some p =>
-                match param_class (p_ty p) with
-                | Some c =>
-                    v <- adapt n' m c (aget k pia) (INested (strip_ia rest) (restr r)) ;;
-                    Ok (VSpec cpn (aset k (merge_val (aget k pia) v) pia) [])
-                | None => Err Reject
-                end
-            | None => Err Reject
-            end
-        | IaNested [] _ => Err Reject
-        | IaDict kvs =>
-            (* dict_kwargs entries that name a parameter are moved into init_args *)
-            let moved := filter (fun kv => match find_param ps (fst kv) with Some _ => true | None => false end) (q_dk q) in
-            let dk' := filter (fun kv => match find_param ps (fst kv) with Some _ => false | None => true end) (q_dk q) in
-            let kvs' := aupdate kvs moved in
-            let base_ia := if m_defaults m then aupdate (defaults_of ps) pia else pia in
-            ia <- parse_ia (adapt n') m ps base_ia kvs' base_ia ;;
-            if m_strict m && negb (required_ok ps ia) then Err Reject
-            else
-              dkv <- simple_values dk' ;;
-              let dkf := match dkv with
-                         | [] => []
-                         | _ => if same then aupdate pdk dkv else dkv
-                         end in
-              Ok (VSpec cpn ia dkf)
+        | IaNested path r => adapt_nested (adapt n') m (snd cps) (fst cps) (snd (fst parts)) path r
+        | IaDict kvs => adapt_dict (adapt n') m (snd cps) (fst cps) (fst (fst parts))
+                                   (snd (fst parts)) (snd parts) kvs (q_dk q)
         end
     end.
 End Adapt.
@@ -435,38 +458,38 @@ Inductive obs := ORej | OAcc (v : value) (io : inst_obs)
 Definition FUEL : nat := 40.
 
 (* argv items in order (ActionTypeHint.__call__ each), then _parse_common: add_sub_defaults and validate *)
-Fixpoint apply_steps (F : family) (base : str) (cfg : option value) (steps : list input) : res (option value) :=
+Fixpoint apply_steps (F : family) (rs : raw -> raw) (base : str) (cfg : option value) (steps : list input) : res (option value) :=
   match steps with
   | [] => Ok cfg
   | i :: steps' =>
       let i' := match i with INested p r => INested (strip_ia p) r | _ => i end in
-      v <- adapt F FUEL lenient base cfg i' ;;
-      apply_steps F base (Some (merge_val cfg v)) steps'
+      v <- adapt F rs FUEL lenient base cfg i' ;;
+      apply_steps F rs base (Some (merge_val cfg v)) steps'
   end.
 
-Definition finalize (F : family) (base : str) (v : value) : res value :=
-  v1 <- adapt F FUEL with_defaults base None (IRaw (raw_of v)) ;;
-  _ <- adapt F FUEL strict base (Some v1) (IRaw (raw_of v1)) ;;
+Definition finalize (F : family) (rs : raw -> raw) (base : str) (v : value) : res value :=
+  v1 <- adapt F rs FUEL with_defaults base None (IRaw (raw_of v)) ;;
+  _ <- adapt F rs FUEL strict base (Some v1) (IRaw (raw_of v1)) ;;
   Ok v1.
 
 (* get_defaults ends with add_sub_defaults: the argument default is completed with the defaults of
    its class before any argv item is seen *)
-Definition expand_default (F : family) (base : str) (dflt : option value) : res (option value) :=
+Definition expand_default (F : family) (rs : raw -> raw) (base : str) (dflt : option value) : res (option value) :=
   match dflt with
-  | Some v => v1 <- adapt F FUEL with_defaults base None (IRaw (raw_of v)) ;; Ok (Some v1)
+  | Some v => v1 <- adapt F rs FUEL with_defaults base None (IRaw (raw_of v)) ;; Ok (Some v1)
   | None => Ok None
   end.
 
-Definition parse (F : family) (base : str) (dflt : option value) (steps : list input) : res value :=
-  cfg0 <- expand_default F base dflt ;;
-  cfg <- apply_steps F base cfg0 steps ;;
+Definition parse_with (F : family) (rs : raw -> raw) (base : str) (dflt : option value) (steps : list input) : res value :=
+  cfg0 <- expand_default F rs base dflt ;;
+  cfg <- apply_steps F rs base cfg0 steps ;;
   match cfg with
-  | Some v => finalize F base v
+  | Some v => finalize F rs base v
   | None => Err Reject     (* nothing given at all: outside the generated space *)
   end.
 
-Definition run (F : family) (base : str) (dflt : option value) (steps : list input) : obs :=
-  match parse F base dflt steps with
+Definition run_with (F : family) (rs : raw -> raw) (base : str) (dflt : option value) (steps : list input) : obs :=
+  match parse_with F rs base dflt steps with
   | Ok v => OAcc v (match inst F FUEL v [] with
                     | Ok (a, log) => IOk a log
                     | Err TypeErr => ITypeErr
@@ -474,3 +497,8 @@ Definition run (F : family) (base : str) (dflt : option value) (steps : list inp
                     end)
   | Err _ => ORej
   end.
+
+(* the code as it is, and the code with fixes/C14-nested-null-restringified.patch *)
+Definition parse := fun F => parse_with F restr.
+Definition run := fun F => run_with F restr.
+Definition run_fixed := fun F => run_with F (fun r => r).
